@@ -7,6 +7,9 @@ use std::ffi::{c_void, CString};
 use std::io::{Error, ErrorKind};
 use std::mem::size_of;
 use std::path::Path;
+#[cfg(clock_bound_verif)]
+use crate::verif::atomic;
+#[cfg(not(clock_bound_verif))]
 use std::sync::atomic;
 use std::{fs, ptr};
 
@@ -49,7 +52,10 @@ pub struct ShmWriter {
 
     /// A raw pointer to the ClockBoundError data mapped in memory. This structure follows the
     /// ShmHeader and contains the information required to compute a bound on clock error.
+    #[cfg(not(clock_bound_verif))]
     ceb: *mut ClockErrorBound,
+    #[cfg(clock_bound_verif)]
+    ceb: crate::verif::MutPtr<ClockErrorBound>,
 }
 
 impl ShmWriter {
@@ -67,6 +73,10 @@ impl ShmWriter {
     ///
     /// TODO: implement scenario 3 once the readers support a version bump.
     pub fn new(path: &Path) -> std::io::Result<ShmWriter> {
+        #[cfg(clock_bound_verif)]
+        let remapped_path = crate::verif::remap_path(path);
+        #[cfg(clock_bound_verif)]
+        let path = remapped_path.as_path();
         // Determine the size of the segment.
         let segsize = ShmWriter::segment_size();
 
@@ -94,6 +104,10 @@ impl ShmWriter {
             let ceb: *mut ClockErrorBound = addr.add(size_of::<ShmHeader>()).cast();
             (generation, version, ceb)
         };
+        #[cfg(clock_bound_verif)]
+        let ceb = crate::verif::MutPtr::new(ceb);
+        #[cfg(clock_bound_verif)]
+        crate::verif::register_mapping(addr as usize, segsize, true);
 
         let writer = ShmWriter {
             segsize,
@@ -175,6 +189,8 @@ impl ShmWriter {
         // Opens the file in write-only mode. Create a file if it does not exist, and truncate it
         // if it does.
         let mut file = std::fs::File::create(path)?;
+        #[cfg(clock_bound_verif)]
+        crate::verif::point("wipe:create");
 
         // In theory, usize may not fit within a u32. In practice, we
         let size: u32 = match segsize.try_into() {
@@ -192,15 +208,27 @@ impl ShmWriter {
 
         // Write the ShmHeader
         file.write_u32::<NativeEndian>(SHM_MAGIC[0])?; // Magic number 0
+        #[cfg(clock_bound_verif)]
+        crate::verif::point("wipe:magic0");
         file.write_u32::<NativeEndian>(SHM_MAGIC[1])?; // Magic number 1
+        #[cfg(clock_bound_verif)]
+        crate::verif::point("wipe:magic1");
         file.write_u32::<NativeEndian>(size)?; // Segsize
+        #[cfg(clock_bound_verif)]
+        crate::verif::point("wipe:segsize");
         file.write_u16::<NativeEndian>(0)?; // Version
+        #[cfg(clock_bound_verif)]
+        crate::verif::point("wipe:version");
         file.write_u16::<NativeEndian>(0)?; // Generation
+        #[cfg(clock_bound_verif)]
+        crate::verif::point("wipe:generation");
 
         // Zero the rest of the segment
         let remaining = segsize - size_of::<ShmHeader>();
         let buf = vec![0; remaining];
         file.write_all(&buf)?;
+        #[cfg(clock_bound_verif)]
+        crate::verif::point("wipe:body");
 
         // Make sure the amount of bytes written matches the segment size
         let pos = file.stream_position()?;
@@ -216,6 +244,8 @@ impl ShmWriter {
 
         // Sync all and drop (close) the descriptor
         file.sync_all()?;
+        #[cfg(clock_bound_verif)]
+        crate::verif::point("wipe:sync");
 
         Ok(())
     }
